@@ -16,6 +16,8 @@ def idx(o):
     return VC.idx_(o)
 def RUN():
     return VC.RUN_()
+def FLAG():
+    return VC.FLAG_()
 def boom(t):
     return VC.boom_(t)
 def rej(t):
@@ -48,6 +50,23 @@ FAULTS = (["none", "none", "none", "raise-main", "reject-main", "terminate-main"
           + 3 * sorted(SIM_FAULTS) + COMPILE_FAULTS)
 
 
+UNITS = ["steps", "steps", "seconds"]
+TOP_LIMITS = [1, 2, 3, 0.5, 1.5, 2.5, 4]
+TOP_GUARDS = ["pre", "inv", "inv-mid"]
+
+
+def history_dims(rng, prog, p_limit=0.45, p_guard=0.3):
+    """round 3: what makes a later simulation of the same compiled scenario depend on an earlier one: a top-level time
+    limit (seconds: converted with the timestep of EACH simulation), top-level preconditions / invariants whose truth the
+    harness flips between runs (FLAG()), limits in seconds on sub-scenarios and `do ... for n seconds`."""
+    prog["top_limit"] = [rng.choice(TOP_LIMITS), rng.choice(["seconds", "seconds", "steps"])] if rng.random() < p_limit else None
+    prog["top_guard"] = rng.choice(TOP_GUARDS) if rng.random() < p_guard else None
+    for s in prog["subs"]:
+        if s.get("term_after"):
+            s["term_unit"] = rng.choice(UNITS)
+    return prog
+
+
 def gen_items(rng, depth, nsubs, first_sub=0, in_setup=False, in_beh=False, has_dyn=False):
     items = []
     for _ in range(rng.randint(1, 5)):
@@ -75,11 +94,11 @@ def gen_items(rng, depth, nsubs, first_sub=0, in_setup=False, in_beh=False, has_
         elif k == "wait":
             items.append(["wait"])
         elif k == "do":
-            items.append(["do", [rng.randrange(first_sub, nsubs)], rng.choice([None, None, 1, 2])])
+            items.append(["do", [rng.randrange(first_sub, nsubs)], rng.choice([None, None, 1, 2]), rng.choice(UNITS)])
         else:
             a = rng.randrange(first_sub, nsubs)
             b = rng.randrange(first_sub, nsubs)
-            items.append(["do", [a, b], rng.choice([None, None, 1, 2, 3])])
+            items.append(["do", [a, b], rng.choice([None, None, 1, 2, 3]), rng.choice(UNITS)])
     return items
 
 
@@ -96,8 +115,8 @@ def gen_directed(rng):
     main = gen_items(rng, 0, 0)[:2] + [["do", [0], None]] + [["wait"], ["W", 1 - o, p, 5], ["wait"]] + gen_items(rng, 0, 0)[:2]
     beh = None if rng.random() < 0.5 else [["wait"], ["W", 0, rng.randint(0, 2), 150], ["wait"]]
     fault = rng.choice(["none", "none", "raise-main", "reject-main", "sim-step", "terminate-main"])
-    return dict(main=main, subs=[mid, inner], beh=beh, fault=fault, fault_pos=rng.randint(3, 8), fault_step=rng.randint(2, 4),
-                raise_guard=True, directed="nested", nsreq=False, mode2D=False)
+    return history_dims(rng, dict(main=main, subs=[mid, inner], beh=beh, fault=fault, fault_pos=rng.randint(3, 8), fault_step=rng.randint(2, 4),
+                                  raise_guard=True, directed="nested", nsreq=False, mode2D=False), 0.3, 0.2)
 
 
 def gen_siblings(rng):
@@ -119,8 +138,8 @@ def gen_siblings(rng):
     main = gen_items(rng, 0, 0)[:2] + [call, ["wait"], ["W", 1 - o, p, 5], ["wait"]]
     beh = None if rng.random() < 0.5 else [["wait"], ["O", o, p, 170, False], ["wait"], ["W", 0, rng.randint(0, 2), 150]]
     fault = rng.choice(["none", "none", "none", "raise-main", "sim-step", "terminate-sim-main"])
-    return dict(main=main, subs=subs, beh=beh, fault=fault, fault_pos=rng.randint(3, 8), fault_step=rng.randint(2, 5),
-                raise_guard=True, directed="siblings", nsreq=False, mode2D=False)
+    return history_dims(rng, dict(main=main, subs=subs, beh=beh, fault=fault, fault_pos=rng.randint(3, 8), fault_step=rng.randint(2, 5),
+                                  raise_guard=True, directed="siblings", nsreq=False, mode2D=False), 0.3, 0.2)
 
 
 def gen_program(rng, idx):
@@ -160,7 +179,7 @@ def gen_program(rng, idx):
                 raise_guard=rng.random() < 0.5, nsreq=rng.random() < 0.4, mode2D=rng.random() < 0.3)
     if forced_step is not None:
         prog["fault_step"] = forced_step
-    return prog
+    return history_dims(rng, prog)
 
 
 def fail_lines(kind):
@@ -209,7 +228,7 @@ def emit_items(items, ind, fail=None, fail_pos=None, in_beh=False, applyto_fail=
             L.append(pad + "wait")
         elif it[0] == "do":
             call = ", ".join(f"Sub{k}(cur())" for k in it[1])
-            L.append(f"{pad}do {call}" + (f" for {it[2]} steps" if it[2] else ""))
+            L.append(f"{pad}do {call}" + (f" for {it[2]} {it[3] if len(it) > 3 else 'steps'}" if it[2] else ""))
             L.append(f'{pad}rec("Ret")')
     if fail and fail_pos is not None and fail_pos >= len(items):
         L += [pad + l for l in fail_lines(fail)]
@@ -265,7 +284,7 @@ def to_scenic(prog):
         L.append("    setup:")
         L.append('        rec("Start", cur(), par)')
         if s.get("term_after"):
-            L.append(f"        terminate after {s['term_after']} steps")
+            L.append(f"        terminate after {s['term_after']} {s.get('term_unit', 'steps')}")
         if s.get("new"):
             y = "boom(0)" if (f == "raise-dyn-specifier" and k == 0) else "0"
             L.append(f"        d = new Object at (60 + 7 * len(objs()), {y}), with foo 21, with bar 22, with baz 23, with allowCollisions True"
@@ -280,7 +299,16 @@ def to_scenic(prog):
               "terminate-sim-sub": "terminate-sim"}.get(f) if k == 0 else None
         L += emit_items(s["compose"], 8, fail=sf, fail_pos=fp if sf else None)
     L.append("scenario Main():")
+    tg = prog.get("top_guard")
+    if tg == "pre":
+        L.append("    precondition: FLAG() == 0")
+    elif tg == "inv":
+        L.append("    invariant: FLAG() == 0")
+    elif tg == "inv-mid":
+        L.append("    invariant: FLAG() == 0 or VC.now() < 2")
     L.append("    setup:")
+    if prog.get("top_limit"):
+        L.append(f"        terminate after {prog['top_limit'][0]} {prog['top_limit'][1]}")
     x0 = "boomc()" if f == "compile-raise" else "0"
     L.append(f"        ego = new Object at ({x0}, 0), with foo 1, with bar 2, with baz 3, with allowCollisions True" + (", with behavior B" if prog["beh"] is not None else ""))
     L.append("        other = new Object at (30, 0), with foo 11, with bar 12, with baz 13, with allowCollisions True")
@@ -394,3 +422,66 @@ def probes():
         dict(name="probeimport2d", probe=True, file={"verif_c14_main.scenic": PROBE_IMPORT, "verif_c14_helper.scenic": PROBE_HELPER},
              main="verif_c14_main.scenic", seed=4247, steps=5, mode2D=True),
     ]
+
+
+# ---------------------------------------------------------------- compile histories (round 3)
+# A helper .scenic module with params, an object, a behaviour and a global; main programs that import it in three forms;
+# bad programs that import it SUCCESSFULLY and then fail.  One history = good, bad, good (other params), good (other
+# form), bad (other kind), good: every compilation must behave as in a fresh process.
+CH_MOD = "verif_c14_h"
+CH_HELPER = '''param hp = 1
+param fromH = 'yes'
+HG = DiscreteRange(10, 20)
+behavior HB():
+    while True:
+        self.foo = HG + globalParameters.hp
+        take Range(0, 1)
+landmark = new Object at (20, 20), with foo globalParameters.hp, with bar 5, with baz 6, with allowCollisions True
+'''
+CH_FORMS = {"import": (f"import {CH_MOD}\n", f"{CH_MOD}.HB"), "from": (f"from {CH_MOD} import HB, HG\n", "HB"),
+            "model": (f"model {CH_MOD}\n", "HB")}
+CH_BODY = '''ego = new Object at (Range(-1, 1), 0), with foo 1, with bar 2, with baz 3, with behavior %s, with allowCollisions True
+record final ego.foo as f
+terminate after 3 steps
+'''
+CH_BAD = {
+    "raise": (CH_BODY + 'raise RuntimeError("injected after the import")\n', None),
+    "setup": ('scenario Main():\n    setup:\n        ego = new Object at (0, 0), with behavior %s\n        raise RuntimeError("injected in setup")\n', "Main"),
+    "invalid": ('ego = new Object at (0, 0), at (1, 1), with behavior %s\n', None),
+    "second-import": ('import verif_c14_nonexistent_module\n' + CH_BODY, None),
+    "noego-require": (CH_BODY + 'require False\nrequire 1 / 0 > 0\nx = [][1]\n', None),
+}
+
+
+def compile_histories(rng, n):
+    hs = []
+    forms, bads = sorted(CH_FORMS), sorted(CH_BAD)
+    for k in range(n):
+        f1, f2 = rng.choice(forms), rng.choice(forms)
+        b1, b2 = bads[(k + rng.randrange(len(bads))) % len(bads)], rng.choice(bads)
+
+        def good(form, hp, mode2D):
+            imp, hb = CH_FORMS[form]
+            return dict(files={f"{CH_MOD}.scenic": CH_HELPER, "verif_c14_chmain.scenic": imp + CH_BODY % hb}, main="verif_c14_chmain.scenic",
+                        params=({"hp": hp} if hp is not None else None), scenario=None, mode2D=mode2D, what=f"good:{form}:hp={hp}", seed=900 + k)
+
+        def bad(form, kind, hp, mode2D):
+            imp, hb = CH_FORMS[form]
+            body, scen = CH_BAD[kind]
+            return dict(files={f"{CH_MOD}.scenic": CH_HELPER, "verif_c14_chbad.scenic": imp + body % hb}, main="verif_c14_chbad.scenic",
+                        params={"hp": hp}, scenario=scen, mode2D=mode2D, what=f"bad:{kind}:{form}:hp={hp}", expect_fail=True, seed=900 + k)
+        m = rng.random() < 0.5
+        ops = [good(f1, 3, m), bad(f1, b1, 7, m), good(f1, 5, m), good(f2, None, m), bad(f2, b2, 9, not m), good(f2, 4, not m), good(f1, 3, m)]
+        hs.append(dict(name=f"chist{k}", chist=True, ops=ops, kinds=[b1, b2], forms=[f1, f2]))
+    return hs
+
+
+def rename_for_reference(h):
+    """the same operations with a module name of its own per operation: no compilation can meet a module left by another"""
+    import copy
+    import json
+    out = copy.deepcopy(h)
+    for k, op in enumerate(out["ops"]):
+        new = f"{CH_MOD}{k}x"
+        op["files"] = {fn.replace(CH_MOD, new): txt.replace(CH_MOD, new) for fn, txt in op["files"].items()}
+    return out
